@@ -95,7 +95,7 @@ int memcmp(const void* a, const void* b, size_t n)
 }
 /* allocation: a bump allocator over a static pool (concrete offsets) and a no-op free(): with CBMC's malloc model the
  * pointers stored in heap arrays lose their targets and every later memcpy ranges over all objects (symex did not finish) */
-static unsigned char pool[2048] __attribute__((aligned(16))); static size_t pool_used;
+static unsigned char pool[256] __attribute__((aligned(16))); static size_t pool_used;   /* <= the field-sensitivity bound given to cbmc: larger arrays lose constant propagation and every loop is then unrolled to the bound */
 static void* pool_get(size_t size) { void* p = &pool[pool_used]; pool_used += (size + 15) & ~(size_t)15; VF_ASSERT(pool_used <= sizeof(pool), "harness: pool large enough"); return p; }
 void free(void* p) { (void)p; }
 /* allocations that hold pointers get typed static storage (a pointer read back from raw bytes loses its target in CBMC);
